@@ -403,12 +403,27 @@ def env_names_checked_for_equals(ctx, prog, fn, T, sinks, rule, key, why):
         if not (is_name(sw) and not is_value(sw) and mentions_eq(sw)):
             continue
         for tgt in set(fn.succs(bb)):
-            rv = [v for (b2, si2, v, r2) in result_variants(fn, M.Explore(fn, start=tgt))]
-            if rv and all(v in ("Err", "from_residual") for v in rv) and not (fn.reachable(tgt) & set(sinks)):
+            Et_ = M.Explore(fn, start=tgt)
+            rv = [v for (b2, si2, v, r2) in result_variants(fn, Et_)]
+            if rv and all(v in ("Err", "from_residual") for v in rv) and not (Et_.blocks & set(sinks)):
                 gates.append(bb)
     # the test is made for every entry: no way round the loop avoids it (constant conditions evaluated)
     E_ = M.Explore(fn)
-    gates = [g for g in gates if g in E_.blocks and not any(min(l) in c for l in loops_ if g in l for c in M.sccs(fn, blocks=E_.blocks, edges=E_.edges, removed={g}))]
+    # (the only way past it is a test of the name's own length: a name too short to hold an '=' past its first unit needs no search)
+    def length_test(bb_):
+        t_ = fn.blocks[bb_]["term"]
+        if t_["k"] != "switch":
+            return False
+        sw_ = M.noref(M.switch_term(fn, T, bb_))
+        is_len = lambda u: (u[0] == "un" and u[1] == "PtrMetadata") or (u[0] == "call" and u[1].endswith("::len")) or (u[0] == "call" and u[1].endswith("::is_empty"))
+        if not (is_name(sw_) and not is_value(sw_)):
+            return False
+        if sw_[0] == "bin" and sw_[1] in ("Ge", "Gt", "Le", "Lt", "Eq", "Ne"):
+            a_, b_ = M.noref(sw_[2]), M.noref(sw_[3])
+            return (is_len(a_) and const_of(b_) is not None) or (is_len(b_) and const_of(a_) is not None)
+        return is_len(sw_) or (sw_[0] == "un" and sw_[1] == "Not" and is_len(M.noref(sw_[2])))
+    len_tests = {b_ for b_ in fn.live_blocks() if any(b_ in l for l in loops_) and length_test(b_)}
+    gates = [g for g in gates if g in E_.blocks and not any(min(l) in c for l in loops_ if g in l for c in M.sccs(fn, blocks=E_.blocks, edges=E_.edges, removed={g} | len_tests))]
     ok = bool(gates) and bool(sinks)
     if ok:
         lp = [l for l in loops_ if any(g in l for g in gates)]
